@@ -5,6 +5,7 @@ import (
 	"bytes"
 	"fmt"
 	"io"
+	"strings"
 	"testing"
 	"testing/iotest"
 
@@ -481,10 +482,22 @@ func (c *C14Case) Run() string {
 
 var c14Layouts = []string{"contig", "cmraw", "cmconv", "lazyT", "sliced", "stepsliced", "physT", "clonedview", "Tsliced", "slicedT", "picked", "leadsliced"}
 
+// c14Wide: axes and strides beyond 127 and 255, where the formats' metadata stops fitting one byte of a
+// varint, a length prefix or a header field.
+var c14Wide = [][]int{{2, 130}, {3, 129}, {130, 2}, {2, 2, 70}, {300}, {1, 200}, {257, 1}, {2, 128}, {128, 3}}
+
 func genC14(rt *rapid.T, format string, d DT, lk string, masked bool) *C14Case {
 	var shape []int
-	switch format {
-	case "csv":
+	wide := strings.HasPrefix(lk, "wide:")
+	if wide {
+		lk = strings.TrimPrefix(lk, "wide:")
+	}
+	switch {
+	case wide && format != "csv":
+		shape = rapid.SampledFrom(c14Wide).Draw(rt, "wideshape")
+	case wide:
+		shape = rapid.SampledFrom([][]int{{2, 130}, {130, 2}, {3, 129}, {128, 3}}).Draw(rt, "wideshape")
+	case format == "csv":
 		shape = rapid.SampledFrom([][]int{{2, 3}, {3, 2}, {1, 3}, {3, 1}, {2, 2}, {4, 3}, {1, 1}, {2, 1}}).Draw(rt, "shape")
 	default:
 		switch rapid.IntRange(0, 5).Draw(rt, "shapeclass") {
@@ -540,6 +553,13 @@ func TestC14(t *testing.T) {
 				format, d, lk := format, d, lk
 				cell(t, "C14", "C14.roundtrip", format+"/"+d.Name+"/"+lk, nCases(8, 250), func(rt *rapid.T) Case {
 					return avoidC14Regions(genC14(rt, format, d, lk, false))
+				})
+			}
+			if d.Name == "float64" || d.Name == "int16" || d.Name == "string" || d.Name == "bool" {
+				format, d := format, d
+				cell(t, "C14", "C14.roundtrip", format+"/"+d.Name+"/wide", nCases(3, 40), func(rt *rapid.T) Case {
+					lk := rapid.SampledFrom([]string{"contig", "cmraw", "lazyT", "sliced", "contig"}).Draw(rt, "lk")
+					return avoidC14Regions(genC14(rt, format, d, "wide:"+lk, false))
 				})
 			}
 			format, d := format, d
